@@ -45,9 +45,15 @@ let obs_of (w : string list) key =
 
 type kind = KSection | KWriteEv | KWritePipe | KTimerArm | KReadEv | KPoll | KSilent | KEnd
 
+(* header token post=<mask>: the scheduler parks a thread AFTER a write as well ("after write" line): what the
+   thread does silently after its wake-up write then happens when that line appears, not at the write *)
+let postw = ref false
+
 let validate (pts : bool) (prefix : act list) (later : act list list) (progs : act list list)
     (scripts : (int * act list) list) (lines : string list) : int =
   let sh = gen_shape in
+  let qsf = quit_stores_before_wakeup in     (* order of the two halves of quit() in the current source *)
+  let step sh scr s lab = step_o qsf sh scr s lab in
   let scr (t : nat) = try List.assoc (int_of_nat t) scripts with Not_found -> [] in
   let st = ref (init prefix later progs) in
   let nthreads = 1 + List.length progs in
@@ -64,8 +70,10 @@ let validate (pts : bool) (prefix : act list) (later : act list list) (progs : a
     | MQueue _ -> (KSection, None)
     | MWakeTest -> ((if sh.wake il g.calling g.looping then KWriteEv else KSilent), Some "queue_mid")
     | MExec _ -> (KSilent, None)
-    | MQuitStore -> (KSilent, None)
-    | MQuitWake -> ((if sh.qwake il then KWriteEv else KSilent), Some "quit_mid")
+    (* first / second half of quit(): store then wake-up test, or (qsf = false) wake-up test then store;
+       the instrumentation point quit_mid is the entry of isInLoopThread(), i.e. in front of the wake-up test *)
+    | MQuitStore -> if qsf then (KSilent, None) else ((if sh.qwake il then KWriteEv else KSilent), Some "quit_mid")
+    | MQuitWake -> if qsf then ((if sh.qwake il then KWriteEv else KSilent), Some "quit_mid") else (KSilent, None)
     | MOffer k -> ((if int_of_nat k >= 500 then KTimerArm else KWritePipe), None) in
   let next x : kind * string option =
     let s = !st in
@@ -190,8 +198,9 @@ let validate (pts : bool) (prefix : act list) (later : act list list) (progs : a
              check_obs obs; eager x
          | "write" when obj = !wakefd ->
              if res <> "8" then rej "wake-up write returned %s" res;
-             need x KWriteEv "a wake-up write"; do_step x (lab_of x); check_obs obs; eager x
-         | "write" when obj = !pipew -> need x KWritePipe "an event write"; do_step x (lab_of x); check_obs obs; eager x
+             need x KWriteEv "a wake-up write"; do_step x (lab_of x); check_obs obs; if not !postw then eager x
+         | "after" when obj = "write" -> check_obs obs; eager x
+         | "write" when obj = !pipew -> need x KWritePipe "an event write"; do_step x (lab_of x); check_obs obs; if not !postw then eager x
          | "read" when obj = !wakefd ->
              if x <> 0 then rej "T%d reads the wake-up descriptor" x;
              (match !st.pc with LHandle true -> () | _ -> rej "handleRead() although the model's wake-up channel is not active");
@@ -263,9 +272,10 @@ let () =
          match w with
          | "case" :: id :: rest ->
              cur_id := id; prefix := []; later := []; progs := []; scripts := []; lines := []; pts := true; kind := "loop";
-             timers := [];
+             timers := []; postw := false;
              List.iter (fun t ->
                  if t = "pts=0" then pts := false;
+                 if String.length t > 5 && String.sub t 0 5 = "post=" && t <> "post=0" then postw := true;
                  if String.length t > 5 && String.sub t 0 5 = "kind=" then kind := String.sub t 5 (String.length t - 5)) rest
          | "P" :: r -> prefix := parse_acts r
          | "L" :: r -> later := parse_acts r :: !later
